@@ -41,12 +41,15 @@ def rhs_matrix(ode, max_tries: int = 20) -> sympy.Matrix:
     intermediates = {x.symbol: x.expr for x in ode.intermediates}
     rhs = sympy.Matrix([state.expr for state in ode.sorted_state_derivatives()])
 
+    # Every substitution resolves at least one level of the (acyclic) dependency
+    # chain, so the number of intermediates bounds the number of passes needed
+    max_tries = max(max_tries, len(intermediates) + 1)
     num_tries = 0
     while (any([rhs.has(k) for k in intermediates.keys()])) and num_tries < max_tries:
         rhs = rhs.xreplace(intermediates)
         num_tries += 1
 
-    if num_tries == max_tries:
+    if any([rhs.has(k) for k in intermediates.keys()]):
         raise RuntimeError("Maximum number of tries used")
     return rhs
 
